@@ -12,11 +12,19 @@
 EXTENDS Integers, Sequences, SequencesExt, FiniteSets, Json, IOUtils, TLC
 
 Thorough == IOEnv.VERIF_TIER = "thorough"
-Sources == {[ver |-> v, at |-> a, empty |-> e, sig |-> g] : v \in 1..4, a \in BOOLEAN, e \in BOOLEAN, g \in BOOLEAN}
+\* sbs: sector-size exponent of the SOURCE (-1 = builder default 16 KiB, 0 = 512 bytes): together with the
+\* target override every file class (plain / encrypted / fix-key, 300 .. 40 000 bytes) changes its layout class
+\* (single unit <-> multi-sector) in both directions.  edge: 33 raw files "300 random bytes + k zeros" around the
+\* point where a compressor saves exactly nothing (store-raw rule of a recompressing rebuild).
+Src(v, a, e, g, b, x) == [ver |-> v, at |-> a, empty |-> e, sig |-> g, sbs |-> b, edge |-> x]
+Extras == IF Thorough THEN BOOLEAN \X BOOLEAN \X BOOLEAN
+          ELSE {<<FALSE, FALSE, FALSE>>, <<TRUE, FALSE, FALSE>>, <<FALSE, TRUE, FALSE>>, <<FALSE, FALSE, TRUE>>, <<TRUE, TRUE, TRUE>>}
+Sources == {Src(v, t[1], t[2], t[3], b, FALSE) : v \in 1..4, t \in Extras, b \in {-1, 0}}
+EdgeSources == {Src(v, FALSE, FALSE, FALSE, -1, TRUE) : v \in {1, 4}}
 Opt(t, c, b, se, ss, vf, lo) == [target |-> t, comp |-> c, bs |-> b, skipEnc |-> se, skipSig |-> ss, verify |-> vf, listOnly |-> lo]
 Targets == 0..4
 Comps   == {"keep", "none", "zlib", "bzip2"}
-Sizes   == {-1, 3, 5}
+Sizes   == {-1, 0, 3, 5}
 Default == Opt(0, "keep", -1, FALSE, TRUE, FALSE, FALSE)
 AllOpts == {Opt(t, c, b, se, ss, vf, lo) : t \in Targets, c \in Comps, b \in Sizes, se \in BOOLEAN, ss \in BOOLEAN, vf \in BOOLEAN, lo \in BOOLEAN}
 Dims == {"target", "comp", "bs", "skipEnc", "skipSig", "verify", "listOnly"}
@@ -27,7 +35,8 @@ QuickOpts == {o \in AllOpts : \/ Cardinality(Diff(o)) <= 1
 \* thorough drops only combinations that add nothing: list_only ignores every other option but the filters
 ThoroughOpts == {o \in AllOpts : (o.listOnly => (o.target = 0 /\ o.comp = "keep" /\ o.bs = -1 /\ ~o.verify)) /\ (~o.skipSig => Cardinality(Diff(o)) <= 3)}
 Opts == IF Thorough THEN ThoroughOpts ELSE QuickOpts
-Cases == SetToSeq({[src |-> s, opts |-> o] : s \in Sources, o \in Opts})
+EdgeOpts == {o \in AllOpts : Diff(o) \subseteq {"comp", "verify"}}
+Cases == SetToSeq({[src |-> s, opts |-> o] : s \in Sources, o \in Opts} \cup {[src |-> s, opts |-> o] : s \in EdgeSources, o \in EdgeOpts})
 ASSUME ndJsonSerialize(IOEnv.CASES, Cases)
 ASSUME PrintT(<<"GENERATED", Len(Cases)>>)
 VARIABLE gx
